@@ -290,8 +290,7 @@ Proof.
   - cbn [bb_add_all fold_left enc_entries]. rewrite app_nil_r. reflexivity.
   - unfold bb_add_all in *. cbn [fold_left fst snd].
     rewrite IH. rewrite bb_add_buffer. cbn [enc_entries].
-    rewrite <- app_assoc. f_equal. f_equal.
-    unfold bb_add. cbn [bb_counter bb_last]. reflexivity.
+    rewrite <- app_assoc. reflexivity.
 Qed.
 
 Definition bb_inv (b : bbuilder) : Prop :=
@@ -382,4 +381,410 @@ Proof.
   - lia.
   - apply entries_loop_enc; [exact Hwf|].
     pose proof (enc_entries_length es interval 0 []). lia.
+Qed.
+
+(* ================================================================== *)
+(* (d) Memory safety of the block reader and iterator                  *)
+(* ================================================================== *)
+Lemma skipn_skipn' : forall (A : Type) a b (l : list A), skipn a (skipn b l) = skipn (b + a) l.
+Proof.
+  intros A a b. induction b; intros l; cbn [skipn Nat.add]; [reflexivity|].
+  destruct l; [destruct a; reflexivity|apply IHb].
+Qed.
+
+Lemma drop_n_drop_n : forall a b (l : bytes), drop_n a (drop_n b l) = drop_n (b + a) l.
+Proof.
+  intros. unfold drop_n. rewrite skipn_skipn'. f_equal. lia.
+Qed.
+
+Lemma de32_some : forall l, 4 <= nlen l -> exists v, de32 l = Some v.
+Proof.
+  intros l H. destruct l as [|a [|b [|c [|d r]]]]; unfold nlen in H; cbn [length] in H; try lia.
+  eexists. reflexivity.
+Qed.
+
+Lemma take_exact_ok : forall sub len, len <= nlen sub -> take_exact sub len = Ok (take_n len sub).
+Proof.
+  intros. unfold take_exact. rewrite nlen_take_n_le by assumption.
+  rewrite N.eqb_refl. reflexivity.
+Qed.
+
+Lemma read32_ok : forall data size off,
+  size = nlen data -> off + 4 <= size -> exists v, read32 data size off = Ok v.
+Proof.
+  intros data size off Hs Ho. unfold read32.
+  replace (size <? off + 4) with false by lia.
+  destruct (de32_some (drop_n off data)) as [v Hv]; [rewrite nlen_drop_n; lia|].
+  rewrite Hv. eexists. reflexivity.
+Qed.
+
+(* ---- decode_entry ---- *)
+Lemma decode_entry_ok : forall sub p limit,
+  limit - p <= nlen sub ->
+  exists r, decode_entry sub p limit = Ok r /\
+    match r with
+    | None => True
+    | Some (s, ns, vl, used, krest) =>
+        krest = drop_n used sub /\ p + used + ns + vl <= limit
+    end.
+Proof.
+  intros sub p limit Hlen. unfold decode_entry.
+  destruct (limit <? p) eqn:E1; [eexists; split; [reflexivity|exact I]|].
+  destruct (limit - p <? 3) eqn:E2; [eexists; split; [reflexivity|exact I]|].
+  destruct sub as [|a [|b [|c rest]]]; try (unfold nlen in Hlen; cbn [length] in Hlen; lia).
+  destruct ((a <? 128) && (b <? 128) && (c <? 128)) eqn:E3.
+  - destruct (limit - p - 3 <? b + c) eqn:E4; eexists; (split; [reflexivity|]); [exact I|].
+    split; [reflexivity|lia].
+  - set (sub := a :: b :: c :: rest) in *.
+    set (wlen := N.min (limit - p) 15).
+    rewrite nlen_take_n_le by lia. rewrite N.eqb_refl. cbn [negb].
+    destruct (varint32_read (take_n wlen sub)) as [[s w1]|]; [|eexists; split; [reflexivity|exact I]].
+    destruct (varint32_read w1) as [[ns w2]|]; [|eexists; split; [reflexivity|exact I]].
+    destruct (varint32_read w2) as [[vl w3]|]; [|eexists; split; [reflexivity|exact I]].
+    destruct (limit - p - (wlen - nlen w3) <? ns + vl) eqn:E5; eexists; (split; [reflexivity|]); [exact I|].
+    split; [reflexivity|lia].
+Qed.
+
+(* ---- iterator invariant ---- *)
+Definition binv1 (it : biter) : Prop :=
+  bi_restarts it + 4 * bi_num it + 4 = nlen (bi_data it) /\
+  bi_rarr it = drop_n (bi_restarts it) (bi_data it) /\
+  bi_ridx it <= bi_num it /\
+  bi_vrest it = drop_n (bi_voff it) (bi_data it) /\
+  bi_next it = drop_n (bi_voff it + bi_vlen it) (bi_data it) /\
+  bi_voff it + bi_vlen it <= bi_restarts it.
+
+Definition binv (it : biter) : Prop := bi_empty it = true \/ binv1 it.
+
+Lemma get_restart_point_ok : forall it idx,
+  binv1 it -> idx <= bi_num it ->
+  exists off, get_restart_point it idx = Ok off /\ off <= bi_restarts it.
+Proof.
+  intros it idx (H1 & H2 & _) Hidx. unfold get_restart_point.
+  destruct (de32_some (drop_n (idx * 4) (bi_rarr it))) as [v Hv].
+  { rewrite H2, !nlen_drop_n. lia. }
+  rewrite Hv. eexists. split; [reflexivity|].
+  destruct (bi_restarts it <? v) eqn:E; lia.
+Qed.
+
+Lemma seek_to_restart_point_ok : forall it idx,
+  binv1 it -> idx <= bi_num it ->
+  exists it', seek_to_restart_point it idx = Ok it' /\ binv1 it' /\
+              bi_data it' = bi_data it /\ bi_restarts it' = bi_restarts it /\
+              bi_num it' = bi_num it /\ bi_empty it' = bi_empty it.
+Proof.
+  intros it idx Hinv Hidx. unfold seek_to_restart_point.
+  destruct (get_restart_point_ok it idx Hinv Hidx) as [off [-> Hoff]]. cbn [rbind].
+  destruct Hinv as (H1 & H2 & H3 & H4 & H5 & H6).
+  eexists. split; [reflexivity|].
+  unfold binv1. cbn [bi_data bi_restarts bi_num bi_rarr bi_ridx bi_vrest bi_voff bi_vlen bi_next bi_empty].
+  rewrite N.add_0_r. repeat split; auto.
+Qed.
+
+Lemma set_pos_inv : forall it cur ridx, binv1 it -> ridx <= bi_num it -> binv1 (set_pos it cur ridx).
+Proof.
+  intros it cur ridx (H1 & H2 & H3 & H4 & H5 & H6) Hr. unfold binv1, set_pos.
+  cbn [bi_data bi_restarts bi_num bi_rarr bi_ridx bi_vrest bi_voff bi_vlen bi_next]. repeat split; auto.
+Qed.
+
+Lemma biter_corrupt_inv : forall it, binv1 it -> binv1 (biter_corrupt it).
+Proof.
+  intros it (H1 & H2 & H3 & H4 & H5 & H6). unfold binv1, biter_corrupt.
+  cbn [bi_data bi_restarts bi_num bi_rarr bi_ridx bi_vrest bi_voff bi_vlen bi_next].
+  repeat split; auto; try lia.
+Qed.
+
+(* facts preserved by every internal step *)
+Definition same_block (it it' : biter) : Prop :=
+  bi_data it' = bi_data it /\ bi_restarts it' = bi_restarts it /\
+  bi_num it' = bi_num it /\ bi_empty it' = bi_empty it.
+
+Lemma same_block_refl : forall it, same_block it it.
+Proof. intros. repeat split. Qed.
+
+Lemma same_block_trans : forall a b c, same_block a b -> same_block b c -> same_block a c.
+Proof. intros a b c (A1 & A2 & A3 & A4) (B1 & B2 & B3 & B4). repeat split; congruence. Qed.
+
+Section SafetyWithComparator.
+Variable cmp : bytes -> bytes -> comparison.
+Variable is_internal : bool.
+
+Lemma advance_ridx_ok : forall fuel it,
+  binv1 it ->
+  exists it', advance_ridx fuel it = Ok it' /\ binv1 it' /\ same_block it it' /\
+              bi_voff it' = bi_voff it /\ bi_vlen it' = bi_vlen it.
+Proof.
+  induction fuel as [|x fuel IH]; intros it Hinv; cbn [advance_ridx].
+  - exists it. split; [reflexivity|]. split; [exact Hinv|]. split; [apply same_block_refl|]. split; reflexivity.
+  - destruct (bi_ridx it + 1 <? bi_num it) eqn:E.
+    + destruct (get_restart_point_ok it (bi_ridx it + 1) Hinv ltac:(lia)) as [rp [-> _]]. cbn [rbind].
+      destruct (rp <? bi_cur it).
+      * destruct (IH (set_ridx it (bi_ridx it + 1))) as [it' (A & B & C & D & F)].
+        { apply set_pos_inv; [exact Hinv|lia]. }
+        exists it'. split; [exact A|]. split; [exact B|]. split; [exact C|]. split; [exact D|exact F].
+      * exists it. split; [reflexivity|]. split; [exact Hinv|]. split; [apply same_block_refl|]. split; reflexivity.
+    + exists it. split; [reflexivity|]. split; [exact Hinv|]. split; [apply same_block_refl|]. split; reflexivity.
+Qed.
+
+Lemma parse_next_key_ok : forall it,
+  binv1 it ->
+  exists it' b, parse_next_key is_internal it = Ok (it', b) /\ binv1 it' /\ same_block it it'.
+Proof.
+  intros it Hinv. unfold parse_next_key.
+  destruct (bi_restarts it <=? next_entry_offset it) eqn:E.
+  - eexists; eexists. split; [reflexivity|]. split; [apply set_pos_inv; [exact Hinv|lia]|].
+    repeat split.
+  - pose proof Hinv as (H1 & H2 & H3 & H4 & H5 & H6).
+    unfold next_entry_offset in *.
+    destruct (decode_entry_ok (bi_next it) (bi_voff it + bi_vlen it) (bi_restarts it)) as [r [-> Hr]].
+    { rewrite H5, nlen_drop_n. lia. }
+    cbn [rbind].
+    destruct r as [[[[[s ns] vl] used] krest]|].
+    2:{ eexists; eexists. split; [reflexivity|]. split; [apply biter_corrupt_inv; exact Hinv|].
+        repeat split. }
+    destruct Hr as [Hk Hb].
+    destruct (nlen (bi_key it) <? s).
+    { eexists; eexists. split; [reflexivity|]. split; [apply biter_corrupt_inv; exact Hinv|].
+      repeat split. }
+    destruct (is_internal && (s + ns <? 8)).
+    { eexists; eexists. split; [reflexivity|]. split; [apply biter_corrupt_inv; exact Hinv|].
+      repeat split. }
+    rewrite take_exact_ok.
+    2:{ rewrite Hk, H5, !nlen_drop_n. lia. }
+    cbn [rbind].
+    match goal with |- context [advance_ridx ?f ?i] => set (it1 := i) end.
+    assert (Hinv1 : binv1 it1).
+    { unfold binv1, it1.
+      cbn [bi_data bi_restarts bi_num bi_rarr bi_ridx bi_vrest bi_voff bi_vlen bi_next].
+      repeat split; auto;
+        try (rewrite Hk, H5, !drop_n_drop_n; f_equal; lia); try lia. }
+    destruct (advance_ridx_ok (bi_data it) it1 Hinv1) as [it2 (A & B & C & D & F)].
+    rewrite A. cbn [rbind].
+    exists it2, true. split; [reflexivity|]. split; [exact B|].
+    eapply same_block_trans; [|exact C]. unfold same_block, it1. cbn. repeat split.
+Qed.
+
+Lemma scan_until_ok : forall fuel bound it,
+  binv1 it ->
+  exists it', scan_until is_internal fuel bound it = Ok it' /\ binv1 it' /\ same_block it it'.
+Proof.
+  induction fuel as [|x fuel IH]; intros bound it Hinv; cbn [scan_until];
+    destruct (parse_next_key_ok it Hinv) as [it1 [b (A & B & C)]]; rewrite A; cbn [rbind].
+  - destruct (b && (next_entry_offset it1 <? bound)); exists it1; auto.
+  - destruct (b && (next_entry_offset it1 <? bound)).
+    + destruct (IH bound it1 B) as [it2 (D & E & F)].
+      exists it2. split; [exact D|]. split; [exact E|]. eapply same_block_trans; eauto.
+    + exists it1; auto.
+Qed.
+
+Lemma seek_linear_ok : forall fuel target it,
+  binv1 it ->
+  exists it', seek_linear cmp is_internal fuel target it = Ok it' /\ binv1 it' /\ same_block it it'.
+Proof.
+  induction fuel as [|x fuel IH]; intros target it Hinv; cbn [seek_linear];
+    destruct (parse_next_key_ok it Hinv) as [it1 [b (A & B & C)]]; rewrite A; cbn [rbind].
+  - destruct (negb b); [exists it1; auto|].
+    destruct (cmp (bi_key it1) target); exists it1; auto.
+  - destruct (negb b); [exists it1; auto|].
+    destruct (cmp (bi_key it1) target); try (exists it1; auto; fail).
+    destruct (IH target it1 B) as [it2 (D & E & F)].
+    exists it2. split; [exact D|]. split; [exact E|]. eapply same_block_trans; eauto.
+Qed.
+
+Lemma prev_restart_ok : forall fuel original it,
+  binv1 it ->
+  exists r, prev_restart fuel original it = Ok r /\
+    match r with None => True | Some it1 => binv1 it1 /\ same_block it it1 end.
+Proof.
+  induction fuel as [|x fuel IH]; intros original it Hinv; cbn [prev_restart];
+    pose proof Hinv as (_ & _ & H3 & _);
+    destruct (get_restart_point_ok it (bi_ridx it) Hinv H3) as [rp [-> _]]; cbn [rbind].
+  - destruct (original <=? rp).
+    + destruct (bi_ridx it =? 0); exists None; auto.
+    + exists (Some it). split; [reflexivity|]. split; [exact Hinv|apply same_block_refl].
+  - destruct (original <=? rp).
+    + destruct (bi_ridx it =? 0); [exists None; auto|].
+      destruct (IH original (set_ridx it (bi_ridx it - 1))) as [r [A B]].
+      { apply set_pos_inv; [exact Hinv|lia]. }
+      exists r. split; [exact A|]. destruct r as [it1|]; [|exact I].
+      destruct B as [B1 B2]. split; [exact B1|]. exact B2.
+    + exists (Some it). split; [reflexivity|]. split; [exact Hinv|apply same_block_refl].
+Qed.
+
+Lemma seek_bsearch_ok : forall fuel target it lo hi,
+  binv1 it -> lo <= bi_num it -> hi <= bi_num it ->
+  exists r, seek_bsearch cmp is_internal fuel target it lo hi = Ok r /\
+    match r with inl _ => True | inr l => l <= bi_num it end.
+Proof.
+  induction fuel as [|fuel IH]; intros target it lo hi Hinv Hlo Hhi; cbn [seek_bsearch].
+  - destruct (lo <? hi); exists (inr lo); auto.
+  - destruct (lo <? hi) eqn:E; [|exists (inr lo); auto].
+    destruct (get_restart_point_ok it ((lo + hi + 1) / 2) Hinv ltac:(lia)) as [off [-> Hoff]].
+    cbn [rbind].
+    pose proof Hinv as (H1 & _).
+    destruct (decode_entry_ok (drop_n off (bi_data it)) off (bi_restarts it)) as [r [-> Hr]].
+    { rewrite nlen_drop_n. lia. }
+    cbn [rbind].
+    destruct r as [[[[[s ns] vl] used] krest]|]; [|exists (inl tt); auto].
+    destruct Hr as [Hk Hb].
+    destruct (negb (s =? 0)); [exists (inl tt); auto|].
+    destruct (is_internal && (ns <? 8)); [exists (inl tt); auto|].
+    rewrite take_exact_ok by (rewrite Hk, !nlen_drop_n; lia).
+    cbn [rbind].
+    destruct (cmp (take_n ns krest) target); apply IH; auto; lia.
+Qed.
+
+Lemma binv_cases : forall it, binv it -> bi_empty it = false -> binv1 it.
+Proof. intros it [H|H] E; [congruence|exact H]. Qed.
+
+Lemma biter_next_ok : forall it, binv it -> exists it', biter_next is_internal it = Ok it' /\ binv it'.
+Proof.
+  intros it Hinv. unfold biter_next. destruct (bi_empty it) eqn:E; [exists it; auto|].
+  destruct (parse_next_key_ok it (binv_cases it Hinv E)) as [it1 [b (A & B & C)]].
+  rewrite A. cbn [rbind]. exists it1. split; [reflexivity|right; exact B].
+Qed.
+
+Lemma biter_first_ok : forall it, binv it -> exists it', biter_first is_internal it = Ok it' /\ binv it'.
+Proof.
+  intros it Hinv. unfold biter_first. destruct (bi_empty it) eqn:E; [exists it; auto|].
+  destruct (seek_to_restart_point_ok it 0 (binv_cases it Hinv E) ltac:(lia)) as [it0 (A0 & B0 & _)].
+  rewrite A0. cbn [rbind].
+  destruct (parse_next_key_ok it0 B0) as [it1 [b (A & B & C)]].
+  rewrite A. cbn [rbind]. exists it1. split; [reflexivity|right; exact B].
+Qed.
+
+Lemma biter_last_ok : forall it, binv it -> exists it', biter_last is_internal it = Ok it' /\ binv it'.
+Proof.
+  intros it Hinv. unfold biter_last. destruct (bi_empty it) eqn:E; [exists it; auto|].
+  destruct (seek_to_restart_point_ok it (bi_num it - 1) (binv_cases it Hinv E) ltac:(lia)) as [it0 (A0 & B0 & _)].
+  rewrite A0. cbn [rbind].
+  destruct (scan_until_ok (bi_data it) (bi_restarts it) it0 B0) as [it1 (A & B & C)].
+  exists it1. split; [exact A|right; exact B].
+Qed.
+
+Lemma biter_prev_ok : forall it, binv it -> exists it', biter_prev is_internal it = Ok it' /\ binv it'.
+Proof.
+  intros it Hinv. unfold biter_prev. destruct (bi_empty it) eqn:E; [exists it; auto|].
+  pose proof (binv_cases it Hinv E) as H1.
+  destruct (prev_restart_ok (bi_data it) (bi_cur it) it H1) as [r [-> Hr]]. cbn [rbind].
+  destruct r as [it1|].
+  - destruct Hr as [B1 (S1 & S2 & S3 & S4)].
+    destruct (seek_to_restart_point_ok it1 (bi_ridx it1) B1) as [it2 (A2 & B2 & _)].
+    { destruct B1 as (_ & _ & H & _). exact H. }
+    rewrite A2. cbn [rbind].
+    destruct (scan_until_ok (bi_data it) (bi_cur it) it2 B2) as [it3 (A3 & B3 & _)].
+    exists it3. split; [exact A3|right; exact B3].
+  - eexists. split; [reflexivity|]. right. apply set_pos_inv; [exact H1|lia].
+Qed.
+
+Lemma biter_seek_ok : forall target it,
+  binv it -> exists it', biter_seek cmp is_internal target it = Ok it' /\ binv it'.
+Proof.
+  intros target it Hinv. unfold biter_seek. destruct (bi_empty it) eqn:E; [exists it; auto|].
+  pose proof (binv_cases it Hinv E) as H1.
+  destruct (is_internal && (nlen target <? 8)).
+  { eexists. split; [reflexivity|]. right. apply biter_corrupt_inv. exact H1. }
+  set (ckc := if biter_valid it then cmp (bi_key it) target else Eq).
+  destruct (biter_valid it && match ckc with Eq => true | _ => false end); [exists it; auto|].
+  pose proof H1 as (_ & _ & H3 & _).
+  destruct (seek_bsearch_ok 64 target it
+              (match ckc with Lt => bi_ridx it | _ => 0 end)
+              (match ckc with Gt => bi_ridx it | _ => bi_num it - 1 end) H1) as [r [-> Hr]].
+  { destruct ckc; lia. }
+  { destruct ckc; lia. }
+  cbn [rbind].
+  destruct r as [u|lft].
+  { eexists. split; [reflexivity|]. right. apply biter_corrupt_inv. exact H1. }
+  destruct ((lft =? bi_ridx it) && match ckc with Lt => true | _ => false end).
+  - cbn [rbind].
+    destruct (seek_linear_ok (bi_data it) target it H1) as [it2 (A & B & _)].
+    exists it2. split; [exact A|right; exact B].
+  - destruct (seek_to_restart_point_ok it lft H1 Hr) as [it1 (A1 & B1 & _)].
+    rewrite A1. cbn [rbind].
+    destruct (seek_linear_ok (bi_data it) target it1 B1) as [it2 (A & B & _)].
+    exists it2. split; [exact A|right; exact B].
+Qed.
+
+Lemma biter_observe_ok : forall it, binv it -> exists o, biter_observe it = Ok o.
+Proof.
+  intros it Hinv. unfold biter_observe.
+  destruct (biter_valid it) eqn:V; [|eexists; reflexivity].
+  unfold biter_valid in V. destruct (bi_empty it) eqn:E; [discriminate|].
+  pose proof (binv_cases it Hinv E) as (H1 & _ & _ & H4 & _ & H6).
+  unfold biter_value. rewrite take_exact_ok by (rewrite H4, nlen_drop_n; lia).
+  cbn [rbind]. eexists. reflexivity.
+Qed.
+
+Lemma biter_step_ok : forall op it,
+  binv it -> exists it', biter_step cmp is_internal op it = Ok it' /\ binv it'.
+Proof.
+  intros op it Hinv. destruct op; cbn [biter_step].
+  - apply biter_first_ok; exact Hinv.
+  - apply biter_last_ok; exact Hinv.
+  - apply biter_seek_ok; exact Hinv.
+  - destruct (biter_valid it); [apply biter_next_ok; exact Hinv|exists it; auto].
+  - destruct (biter_valid it); [apply biter_prev_ok; exact Hinv|exists it; auto].
+Qed.
+
+Lemma biter_run_ok : forall ops it,
+  binv it -> exists r, biter_run cmp is_internal ops it = Ok r.
+Proof.
+  induction ops as [|op ops IH]; intros it Hinv; cbn [biter_run].
+  - eexists; reflexivity.
+  - destruct (biter_step_ok op it Hinv) as [it1 [-> B]]. cbn [rbind].
+    destruct (biter_observe_ok it1 B) as [o ->]. cbn [rbind].
+    destruct (IH it1 B) as [[os it2] ->]. cbn [rbind]. eexists; reflexivity.
+Qed.
+
+End SafetyWithComparator.
+
+(* ---- block_init / biter_create ---- *)
+Definition blk_ok (blk : block) : Prop :=
+  blk_len blk = nlen (blk_data blk) /\
+  (blk_size blk = 0 \/
+   (blk_size blk = nlen (blk_data blk) /\ 4 <= blk_size blk /\
+    exists n, de32 (drop_n (blk_size blk - 4) (blk_data blk)) = Some n /\
+              n <= (blk_size blk - 4) / 4 /\
+              blk_restarts blk = blk_size blk - (1 + n) * 4)).
+
+Lemma block_init_ok : forall b, exists blk, block_init b = Ok blk /\ blk_ok blk /\ blk_data blk = b.
+Proof.
+  intros b. unfold block_init.
+  destruct (nlen b <? 4) eqn:E.
+  - eexists. split; [reflexivity|]. split; [|reflexivity].
+    split; [reflexivity|left; reflexivity].
+  - destruct (de32_some (drop_n (nlen b - 4) b)) as [n Hn]; [rewrite nlen_drop_n; lia|].
+    unfold read32. replace (nlen b <? nlen b - 4 + 4) with false by lia. rewrite Hn. cbn [rbind].
+    destruct ((nlen b - 4) / 4 <? n) eqn:E2.
+    + eexists. split; [reflexivity|]. split; [|reflexivity].
+      split; [reflexivity|left; reflexivity].
+    + eexists. split; [reflexivity|]. split; [|reflexivity].
+      split; [reflexivity|right]. cbn [blk_size blk_data blk_restarts].
+      split; [reflexivity|]. split; [lia|]. exists n. split; [exact Hn|]. split; [lia|reflexivity].
+Qed.
+
+Lemma biter_create_ok : forall blk, blk_ok blk -> exists it, biter_create blk = Ok it /\ binv it.
+Proof.
+  intros blk [Hlen Hb]. unfold biter_create.
+  destruct (blk_size blk <? 4) eqn:E.
+  - eexists. split; [reflexivity|left; reflexivity].
+  - destruct Hb as [Hz|(Hs & H4 & n & Hn & Hle & Hr)]; [lia|].
+    unfold read32. rewrite Hlen. replace (nlen (blk_data blk) <? blk_size blk - 4 + 4) with false by lia.
+    rewrite Hn. cbn [rbind].
+    destruct (n =? 0) eqn:E0.
+    + eexists. split; [reflexivity|left; reflexivity].
+    + eexists. split; [reflexivity|]. right. unfold binv1.
+      cbn [bi_data bi_restarts bi_num bi_rarr bi_ridx bi_vrest bi_voff bi_vlen bi_next].
+      repeat split; try reflexivity; try lia.
+Qed.
+
+(* (d) the block iterator never reads outside the block: for ALL byte strings,
+   comparators and scripts the model never returns OOB *)
+Theorem block_run_safe : forall cmp is_internal b ops, block_run cmp is_internal b ops <> OOB.
+Proof.
+  intros cmp is_internal b ops. unfold block_run.
+  destruct (block_init_ok b) as [blk (-> & Hok & _)]. cbn [rbind].
+  destruct (biter_create_ok blk Hok) as [it (-> & Hinv)]. cbn [rbind].
+  destruct (biter_run_ok cmp is_internal ops it Hinv) as [[os it'] ->]. cbn [rbind].
+  discriminate.
 Qed.
